@@ -295,6 +295,52 @@ TABLES = [("basis_T_sparse", 0), ("basisconjugate_sparse", 1), ("basis_basisconj
           ("basisconjugate_basis_sparse", 3), ("basis_basisconjugate_T_sparse_from_1", 4), ("basishermitian_basis_T_from_1", 5)]
 
 
+_MODEL_TABLES = {}      # (cfg name, table name) -> full table computed by the model (the basis of a configuration is deterministic)
+_MODEL_DICTS = {}       # (cfg name, which) -> {(r, col): [(x, y, z), ...]}
+TABLE_SHAPE = {0: lambda D: (D, D), 1: lambda D: (D, D), 2: lambda D: (D * D, D * D), 3: lambda D: (D * D, D * D),
+               4: lambda D: (D * D, (D - 1) ** 2), 5: lambda D: (D, (D - 1) ** 2)}
+
+
+def model_table_full(ctx, c, name, w):
+    if (c.name, name) not in _MODEL_TABLES:
+        nrows, ncols = TABLE_SHAPE[w](c.D)
+        chunk = max(1, 30000 // max(1, ncols))
+        parts = []
+        for r0 in range(0, nrows, chunk):
+            r1 = min(nrows, r0 + chunk)
+            parts.append(np.array(to_c(M(ctx).call("c02.table", [c.d, w, r0, r1], c.bf)), dtype=complex).reshape(r1 - r0, ncols))
+        _MODEL_TABLES[(c.name, name)] = np.vstack(parts)
+    return _MODEL_TABLES[(c.name, name)]
+
+
+def parse_dict_row(vals, r, D):
+    out, pos = {}, 0
+    for col in range(D):
+        n = int(vals[pos]); pos += 1
+        mod = []
+        for _ in range(n):
+            mod.append((int(vals[pos]), int(vals[pos + 1]), complex(float(vals[pos + 2]), float(vals[pos + 3])))); pos += 4
+        out[(r, col)] = mod
+    return out
+
+
+def model_dict_full(ctx, c, which):
+    if (c.name, which) not in _MODEL_DICTS:
+        out = {}
+        for r in range(c.D):
+            out.update(parse_dict_row(M(ctx).call("c02.dict", [c.d, which, r, r + 1], c.bf), r, c.D))
+        _MODEL_DICTS[(c.name, which)] = out
+    return _MODEL_DICTS[(c.name, which)]
+
+
+def dict_entries(dct, key):
+    return [(int(x), int(y), complex(z)) for (x, y, z) in dct.get(key, [])]
+
+
+def dict_same(impl, mod):
+    return len(impl) == len(mod) and all(i[0] == m[0] and i[1] == m[1] and abs(i[2] - m[2]) <= 1e-15 for i, m in zip(impl, mod))
+
+
 def chk_tables(ctx, case):
     c = Cfg(case["cfg"])          # fresh CompositeSystem: tables are built here ...
     _CACHE[case["cfg"]] = c       # ... and the later sub-checks use this very system (its lazily built tables are the ones verified here)
@@ -309,13 +355,12 @@ def chk_tables(ctx, case):
         if T.shape != (nrows, ncols):
             K.bad("CompositeSystem." + name, "shape", "shape %s, expected %s" % (T.shape, (nrows, ncols)))
             continue
-        rows = list(range(nrows)) if rows_sel is None else [r % nrows for r in rows_sel]
-        chunk = max(1, 30000 // max(1, ncols))
-        runs = []
-        if rows_sel is None:
-            runs = [(r, min(nrows, r + chunk)) for r in range(0, nrows, chunk)]
-        else:
-            runs = [(r, r + 1) for r in rows]
+        if rows_sel is None:         # every row (the full model table is kept for the table_history sub-check)
+            K.eq("CompositeSystem." + name, T, model_table_full(ctx, c, name, w), "%s (all %d rows)" % (name, nrows), tol=1e-15)
+            ctx.count("tables", key=(c.name, name, "all"), label=name, nontrivial=True)
+            continue
+        rows = [r % nrows for r in rows_sel]
+        runs = [(r, r + 1) for r in rows]
         for r0, r1 in runs:
             vals = M(ctx).call("c02.table", [d, w, r0, r1], c.bf)
             mod = np.array(to_c(vals), dtype=complex).reshape(r1 - r0, ncols)
@@ -334,16 +379,13 @@ def chk_tables(ctx, case):
     for which, attr in ((0, "dict_from_hs_to_choi"), (1, "dict_from_choi_to_hs")):
         dct = getattr(cs, attr)
         rows = list(range(D)) if rows_sel is None else sorted(set(r % D for r in rows_sel))
+        full = model_dict_full(ctx, c, which) if rows_sel is None else None
         for r in rows:
-            vals = M(ctx).call("c02.dict", [d, which, r, r + 1], c.bf)
-            pos = 0
+            modrow = full if full is not None else parse_dict_row(M(ctx).call("c02.dict", [d, which, r, r + 1], c.bf), r, D)
             for col in range(D):
-                n = int(vals[pos]); pos += 1
-                mod = []
-                for _ in range(n):
-                    mod.append((int(vals[pos]), int(vals[pos + 1]), complex(float(vals[pos + 2]), float(vals[pos + 3])))); pos += 4
-                impl = [(int(x), int(y), complex(z)) for (x, y, z) in dct.get((r, col), [])]
-                ok = len(impl) == len(mod) and all(i[0] == m[0] and i[1] == m[1] and abs(i[2] - m[2]) <= 1e-15 for i, m in zip(impl, mod))
+                mod = modrow[(r, col)]
+                impl = dict_entries(dct, (r, col))
+                ok = dict_same(impl, mod)
                 if not ok:
                     K.bad("CompositeSystem." + attr, "value", "%s[(%d,%d)]: implementation %s, model %s" % (attr, r, col, impl[:4], mod[:4]))
             ctx.count("tables", key=(c.name, attr, r), label=attr)
